@@ -25,6 +25,9 @@ git apply $out/patch.diff || { echo "PATCH DOES NOT APPLY"; }
 go build ./... 2>&1 | tail -3; build_ok=$?
 mv $demo /tmp/seeddemo.$name.go
 suite=$(go test -vet=off -count=1 ./... 2>&1 | grep -v 'no test files' | grep -v '^ok' | head -5)
+if [ -n "$suite" ]; then # re-run once: examples/clock TestSynchronizedTimestamp is timing dependent on the unmodified tree too
+  suite=$(go test -vet=off -count=1 ./... 2>&1 | grep -v 'no test files' | grep -v '^ok' | head -5)
+fi
 [ -z "$suite" ] && suite_pass=true || suite_pass=false
 mv /tmp/seeddemo.$name.go $demo
 fails=0; for i in 1 2 3; do go test -vet=off -count=1 $demoflags -run 'TestSeedDemo$' $demopkg >/tmp/seeddemo.$name.out 2>&1 || fails=$((fails+1)); done
